@@ -385,8 +385,9 @@ def run_quiesce(s, J, op, plan, degenerate, results, counts):
         counts["claimed"] += 1
     gen = plan["data"].get("gen") or {}
     frac = plan["family"].get("alpha_frac") or 0.0
+    # (Huber's intercept step is a gradient step bounded by delta per epoch: slow by design)
     quad_like = s.dname in (None, "Quadratic", "WeightedQuadratic", "QuadraticGroup",
-                            "QuadraticMultiTask", "Huber")
+                            "QuadraticMultiTask") or (s.dname == "Huber" and not res["fi"])
     # bounded liveness is only demanded where convergence within the budget is beyond doubt:
     # well-conditioned, non-degenerate, convex, curvature bounded below (quadratic-like losses;
     # logistic only when the regularisation keeps the solution away from infinity)
